@@ -290,11 +290,15 @@ def gen_basis_case(rng, big):
         bases.append(make_base_spec(rng, 'a%d' % k, 'A', mats['A'], form, grid, coltypes.get('A')))
     for k in range(2):
         bases.append(make_base_spec(rng, 'b%d' % k, 'B', mats['B'], str(rng.choice(FORMS_A)), grid, coltypes.get('B')))
+    if npix >= 2 and rng.random() < 0.15:      # (one pixel: a length-one vector passes the constructor's `shape[0] == 1` test for sparse rows)
+        # lists the constructor must reject: empty, ragged, mixing vectors and sparse rows
+        bases.append({'name': 'x0', 'mat': 'A', 'form': str(rng.choice(['bad-empty', 'bad-ragged', 'bad-mixed-vec-first', 'bad-mixed-row-first', 'bad-ragged-rows'])),
+                      'n': int(rng.integers(2, 5)), 'pos': int(rng.integers(1, 4)), 'tuple': bool(rng.random() < 0.3), 'grid_arg': False})
     case = {'type': 'basis', 'npix': npix, 'grid': grid, 'style': style,
             'mats': {k: enc_arr(v) for k, v in mats.items()}, 'coltypes': coltypes, 'bases': bases, 'ops': []}
     # the program: names and their mode counts are tracked so that operands exist
-    nm = {b['name']: mats[b['mat']].shape[1] for b in bases if b is not None}
-    cpx = {b['name']: np.iscomplexobj(mats[b['mat']]) for b in bases}
+    nm = {b['name']: mats[b['mat']].shape[1] for b in bases if not b['form'].startswith('bad-')}
+    cpx = {b['name']: np.iscomplexobj(mats[b['mat']]) for b in bases if not b['form'].startswith('bad-')}
     names = list(nm)
     nops = int(rng.integers(6, 13 if not big else 20))
     for t in range(nops):
@@ -362,12 +366,23 @@ def make_base_spec(rng, name, mat, M, form, grid, coltypes=None):
     if form == 'csc':
         ip, ix, d = raw_csc(rng, M, messy=bool(plain and rng.random() < 0.5))
         spec['csc'] = {'indptr': ip, 'indices': ix, 'data': enc_arr(np.array(d, dtype=M.dtype))}
+    if form == 'csr' and rng is not None and plain and rng.random() < 0.4:
+        # a CSR triple with explicit zeros / duplicate entries (the CSC triple of the transpose)
+        ip, ix, d = raw_csc(rng, M.T, messy=True)
+        spec['csr'] = {'indptr': ip, 'indices': ix, 'data': enc_arr(np.array(d, dtype=M.dtype))}
+    if form == 'coo' and rng is not None and plain and rng.random() < 0.4:
+        # COO triples in random order, with explicit zeros / duplicates
+        ip, ix, d = raw_csc(rng, M, messy=True)
+        col = [j for j in range(M.shape[1]) for _ in range(ip[j + 1] - ip[j])]
+        order = [int(x) for x in rng.permutation(len(ix))]
+        spec['coo'] = {'row': [ix[k] for k in order], 'col': [col[k] for k in order],
+                       'data': enc_arr(np.array([d[k] for k in order], dtype=M.dtype))}
     if form == 'rows':
         ip, ix, d = raw_csc(rng, M, messy=bool(plain and rng.random() < 0.3))
         d = np.array(d, dtype=M.dtype)
         spec['rows'] = {'idx': [ix[ip[j]:ip[j + 1]] for j in range(M.shape[1])],
                         'val': [enc_arr(d[ip[j]:ip[j + 1]]) for j in range(M.shape[1])],
-                        'fmt': str(rng.choice(['csr', 'csr', 'csc', 'csr_array']))}
+                        'fmt': str(rng.choice(['csr', 'csr', 'csc', 'csr_array'])), 'tuple': bool(rng.random() < 0.3)}
     spec['grid_arg'] = bool(grid and (form not in ('fields', 'tuple') or rng.random() < 0.5))
     if form in ('fields', 'tuple') and coltypes is not None and (spec['grid_arg'] or not grid) and rng.random() < 0.3:
         spec['nested'] = True      # modes as plain Python lists of Python numbers
@@ -376,6 +391,33 @@ def make_base_spec(rng, name, mat, M, form, grid, coltypes=None):
 
 # ---------------------------------------------------------------------------------------------
 # the real code: basis cases
+
+def build_bad_list(spec, npix):
+    """A list/tuple that cannot denote a matrix.  Returns (python object, model line)."""
+    form, n, pos = spec['form'], spec['n'], min(spec['pos'], spec['n'] - 1)
+    vec = lambda k, ln: np.arange(ln, dtype=float) + k                                   # noqa: E731
+    row = lambda k, ln: sp.csr_matrix(np.arange(ln, dtype=float)[None, :] + k + 1.0)    # noqa: E731  (no zeros: all stored)
+    dvec = lambda v: 'd|' + fmt_vec(v)                                                   # noqa: E731
+    drow = lambda r: 's|%d|%d|%s|%s' % (r.shape[0], r.shape[1], fmt_ints(r.indices), fmt_vec(r.data))  # noqa: E731
+    if form == 'bad-empty':
+        items, enc = [], []
+    elif form == 'bad-ragged':
+        items = [vec(k, npix + (1 if k == pos else 0)) for k in range(n)]
+        enc = [dvec(v) for v in items]
+    elif form == 'bad-ragged-rows':
+        items = [row(k, npix + (1 if k == pos else 0)) for k in range(n)]
+        enc = [drow(r) for r in items]
+    elif form == 'bad-mixed-vec-first':
+        items = [row(k, npix) if k == pos else vec(k, npix) for k in range(n)]
+        enc = [drow(r) if k == pos else dvec(r) for k, r in enumerate(items)]
+    elif form == 'bad-mixed-row-first':
+        items = [vec(k, npix) if k == pos else row(k, npix) for k in range(n)]
+        enc = [dvec(r) if k == pos else drow(r) for k, r in enumerate(items)]
+    else:
+        raise MachineryError('unknown form ' + form)
+    arg = tuple(items) if spec.get('tuple') else items
+    return arg, 'C14 new %s seq %s %s' % (spec['name'], 'tuple' if spec.get('tuple') else 'list', ';'.join(enc) if enc else '-')
+
 
 def make_grid(npix):
     import hcipy
@@ -393,16 +435,30 @@ def build_base(spec, M, grid, coltypes=None):
     ct = list(coltypes) if coltypes is not None else [M.dtype.name] * nmodes
     Mp = cast(M, promoted(ct, M.dtype).name)
     if form == 'dense':
-        return hcipy.ModeBasis(Mp.copy(), g), 'C14 new %s dense %d %d %s' % (name, npix, nmodes, fmt_mat(M))
+        return hcipy.ModeBasis(Mp.copy(), g), 'C14 new %s ndarray %d %d %s' % (name, npix, nmodes, fmt_mat(M))
     if form == 'csc':
         c = spec['csc']
         d = cast(dec_arr(c['data']), Mp.dtype.name)
         T = sp.csc_matrix((d, np.array(c['indices'], dtype=np.int32), np.array(c['indptr'], dtype=np.int32)), shape=(npix, nmodes))
-        return hcipy.ModeBasis(T, g), 'C14 new %s csc %d %d %s %s %s' % (name, npix, nmodes, fmt_ints(c['indptr']), fmt_ints(c['indices']), fmt_vec(d))
+        return hcipy.ModeBasis(T, g), 'C14 new %s spmat csc %d %d %s %s %s' % (name, npix, nmodes, fmt_ints(c['indptr']), fmt_ints(c['indices']), fmt_vec(d))
+    if form == 'csr' and 'csr' in spec:
+        c = spec['csr']
+        d = cast(dec_arr(c['data']), Mp.dtype.name)
+        T = sp.csr_matrix((d, np.array(c['indices'], dtype=np.int32), np.array(c['indptr'], dtype=np.int32)), shape=(npix, nmodes))
+        return hcipy.ModeBasis(T, g), 'C14 new %s spmat csr %d %d %s %s %s' % (name, npix, nmodes, fmt_ints(c['indptr']), fmt_ints(c['indices']), fmt_vec(d))
+    if form == 'coo' and 'coo' in spec:
+        c = spec['coo']
+        d = cast(dec_arr(c['data']), Mp.dtype.name)
+        T = sp.coo_matrix((d, (np.array(c['row'], dtype=np.int32), np.array(c['col'], dtype=np.int32))), shape=(npix, nmodes))
+        return hcipy.ModeBasis(T, g), 'C14 new %s spmat coo %d %d %s %s %s' % (name, npix, nmodes, fmt_ints(c['row']), fmt_ints(c['col']), fmt_vec(d))
     if form in ('csr', 'coo', 'csc_array'):
+        # the model is told what the SciPy object holds (its own index arrays), in its own format
         T = sp.csr_matrix(Mp) if form == 'csr' else (sp.coo_matrix(Mp) if form == 'coo' else sp.csc_array(Mp))
-        ip, ix, d = raw_csc(None, M, messy=False)
-        return hcipy.ModeBasis(T, g), 'C14 new %s csc %d %d %s %s %s' % (name, npix, nmodes, fmt_ints(ip), fmt_ints(ix), fmt_vec(np.array(d, dtype=M.dtype)))
+        if form == 'coo':
+            line = 'C14 new %s spmat coo %d %d %s %s %s' % (name, npix, nmodes, fmt_ints(T.row), fmt_ints(T.col), fmt_vec(T.data))
+        else:
+            line = 'C14 new %s spmat %s %d %d %s %s %s' % (name, 'csr' if form == 'csr' else 'csc', npix, nmodes, fmt_ints(T.indptr), fmt_ints(T.indices), fmt_vec(T.data))
+        return hcipy.ModeBasis(T, g), line
     if form in ('fields', 'tuple'):
         cols = [cast(M[:, j], ct[j]) for j in range(nmodes)]
         if spec.get('nested'):
@@ -410,7 +466,8 @@ def build_base(spec, M, grid, coltypes=None):
         elif grid is not None:
             cols = [hcipy.Field(c, grid) for c in cols]
         arg = cols if form == 'fields' else tuple(cols)
-        return hcipy.ModeBasis(arg, g), 'C14 new %s fields %d %s' % (name, npix, fmt_mat(M.T))
+        line = 'C14 new %s seq %s %s' % (name, 'list' if form == 'fields' else 'tuple', ';'.join('d|' + fmt_vec(M[:, j]) for j in range(nmodes)))
+        return hcipy.ModeBasis(arg, g), line
     if form == 'rows':
         r = spec['rows']
         rows = []
@@ -418,8 +475,11 @@ def build_base(spec, M, grid, coltypes=None):
             v = cast(dec_arr(val), ct[j])
             row = sp.csr_matrix((v, np.array(idx, dtype=np.int32), np.array([0, len(idx)], dtype=np.int32)), shape=(1, npix))
             rows.append(row if r['fmt'] == 'csr' else (row.tocsc() if r['fmt'] == 'csc' else sp.csr_array(row)))
-        line = 'C14 new %s rows %d %s %s' % (name, npix, ';'.join(fmt_ints(i) for i in r['idx']),
-                                            ';'.join(fmt_vec(dec_arr(v)) for v in r['val']))
+        if r.get('tuple'):
+            rows = tuple(rows)
+        line = 'C14 new %s seq %s %s' % (name, 'tuple' if r.get('tuple') else 'list',
+                                         ';'.join('s|%d|%d|%s|%s' % (rows[j].shape[0], rows[j].shape[1], fmt_ints(i), fmt_vec(dec_arr(v)))
+                                                  for j, (i, v) in enumerate(zip(r['idx'], r['val']))))
         return hcipy.ModeBasis(rows, g), line
     raise MachineryError('unknown form ' + form)
 
@@ -472,7 +532,20 @@ class BasisRun:
             M = mats[spec['mat']]
             form = spec['form']
             sparse_expected = form in ('csc', 'csr', 'coo', 'csc_array', 'rows')
-            self.count('form:' + form)
+            self.count('form:' + form + (' (raw triple, explicit zeros / duplicates)' if form in spec and form in ('csr', 'coo') else ''))
+            if form.startswith('bad-'):
+                arg, line = build_bad_list(spec, npix)
+                try:
+                    hcipy.ModeBasis(arg)
+                    got = 'accepted'
+                except ValueError:
+                    got = 'err value'
+                except Exception as e:  # noqa
+                    got = err_kind(e)
+                if got != 'err value':
+                    self.fail('constructor-ill-formed-list ' + form, 'ModeBasis(<%s list>) : %s, expected ValueError' % (form, got))
+                self.emit(line, got)
+                continue
             try:
                 b, line = build_base(spec, M, grid, coltypes.get(spec['mat']))
             except Exception as e:  # noqa
@@ -1141,7 +1214,7 @@ def execute(case):
 def run(ctx):
     ctx.rule = ('basis cases: one or two random dyadic matrices (npix 0..6 [thorough: ..10], 0..5 modes, densities 0/0.3/0.6/1, '
                 '30% complex; in 45% of the cases every mode has its own dtype bool/int8/int64/float32/float64/complex128, mostly narrowest first, lists also as nested Python lists), each built through 4-7 of the input forms dense / raw CSC triple (explicit zeros, duplicate entries) / '
-                'CSR / COO / csc_array / list of fields / tuple of fields / list of sparse rows, with and without a grid, followed by 6-12 random '
+                'CSR / COO (as SciPy builds them, or raw triples with explicit zeros / duplicates / shuffled order) / csc_array / list of fields / tuple of fields / list or tuple of sparse rows (the model is given a description of the Python object and dispatches itself: fromInput), in 15% of the cases also a list the constructor must reject (empty, ragged, mixing vectors and sparse rows), with and without a grid, followed by 6-12 random '
                 'operations (linear_combination, __getitem__ with int / slice / index list / mask incl. negative, out-of-range, '
                 'length-one selections, __add__, extend, append, to_sparse, to_dense, coefficients_for of A·c and of general y when '
                 'the modes are independent with cond <= 1e3). mirror cases: DeformableMirror (dense/sparse influence functions), '
